@@ -243,16 +243,11 @@ def run(rep, info, model, tier, seed):
 
 
 def replay(body):
-    sc = fam.unjson_sc(body["scenario"])
-    if sc.get("prelude"):
-        # the connection that ran just before this one in the same process (permessage-deflate negotiated)
-        pre = dict(sc, steps=[tuple(x) for x in sc["prelude"]["steps"]], ztape=sc["prelude"]["ztape"])
-        pre.pop("prelude")
-        simnet.run_impl(pre)
-    r = simnet.run_impl(sc)
-    tr = simnet.canon_trace(r.trace)
-    print("events:", [it[1][:1] for it in tr if it[0] == 0])
-    n = len([it for it in tr if it[0] == 0 and it[1][0] == 13])
-    print("ProtocolError events:", n)
-    print("REPLAY: see events above; expected exactly one ProtocolError, prefix delivered, non-graceful Disconnected last")
-    return 0 if n == 1 else 1
+    def fix(sc):
+        if sc.get("prelude"):
+            # the connection that ran just before this one in the same process (permessage-deflate negotiated)
+            pre = dict(sc, steps=[tuple(x) for x in sc["prelude"]["steps"]], ztape=sc["prelude"]["ztape"])
+            pre.pop("prelude")
+            sc["previously"] = [fam.strip_meta(pre)] + list(sc.get("previously", []))
+        return sc
+    return fam.replay_generic(body, {"C04:prefix-violation-rest": oracle, "C04:two-byte-header-sweep": sweep_oracle}, fix)
